@@ -150,8 +150,9 @@ class Evaluator:
                 key = self.lkey(n["c"][0])
                 if key in self.env:
                     v = self.env[key]
-                    if isinstance(v, int) and inner is not None and inner["k"] == "UnaryOperator" and inner.get("op") == "*":
-                        return self.wrap(v, n.get("ct"))     # *(const unsigned char*)p reads the byte as unsigned
+                    if isinstance(v, int) and inner is not None and ((inner["k"] == "UnaryOperator" and inner.get("op") == "*") or inner["k"] == "ArraySubscriptExpr") \
+                            and (self.tinfo(n.get("ct")) or {}).get("bits") == 8:
+                        return self.wrap(v, n.get("ct"))     # *(const unsigned char*)p / ((const unsigned char*)p)[i] read the byte as unsigned
                     return v
                 raise Unknown(key)
             if ck in ("IntegralCast", "NoOp", "IntegralToBoolean", "BooleanToSignedIntegral"):
